@@ -7,8 +7,11 @@ import (
 	"github.com/paulsonkoly/calc/parser"
 	"github.com/paulsonkoly/calc/types/node"
 
+	"verif/ast"
 	"verif/calcrun"
 	"verif/core"
+	"verif/rs"
+	"verif/val"
 )
 
 // History level of C15: sessions and programs that cross the addressing
@@ -176,4 +179,115 @@ func cName(i int) string {
 		s += string(rune('a' + k%26))
 	}
 	return "p" + s
+}
+
+// c15LongCode: the code segment grown to a chosen size by functions with long straight-line bodies (few
+// constants, so the data segment stays small), then small functions of every control-flow shape are defined
+// and called. Nothing in them is anywhere near a limit: they must work, at code offset 0 (the probe is then
+// the first statement of the session) as well as beyond 2^15 and 2^16 instructions, and print what the
+// reference says.
+func c15LongCode(ctx *core.Ctx, idx int) core.Result {
+	r := core.CaseRng(ctx.Seed, "C15/longcode", idx)
+	var res core.Result
+	targets := []int{0, 0, 300, 32600, 32740, 32768, 32790, 40000, 65500, 65560, 70000, 100000}
+	target := targets[idx%len(targets)]
+	doOut := (idx/len(targets))%2 == 0
+	calcrun.SetStdin("")
+	ses := calcrun.NewSession()
+	feed := func(src string) (out string, pan any) {
+		func() {
+			defer func() { pan = recover() }()
+			out = calcrun.Capture(func() { node.VerifProcessInput(src, parser.Type{}, ses.VM, doOut) })
+		}()
+		return
+	}
+	in := map[string]any{"code_segment_target": target, "repl_mode": doOut}
+	fail := func(d string) core.Result {
+		res.Verdict = core.Violated
+		res.Viol = &core.Violation{Monitor: "addressing-limits", Detail: d, Input: in}
+		return res
+	}
+	// padding: zpadK = (a) -> { a = a ... } with up to 15000 statements each (two instructions per statement at most)
+	for k := 0; ses.State().CS+40 < target; k++ {
+		left := target - ses.State().CS
+		n := left / 2
+		if n > 15000 {
+			n = 15000
+		}
+		if n < 1 {
+			n = 1
+		}
+		src := fmt.Sprintf("zpad%c%c = (a) -> {\n%sa\n}", 'a'+k/26, 'a'+k%26, strings.Repeat("a = a\n", n))
+		before := ses.State().CS
+		out, pan := feed(src)
+		if pan != nil || strings.HasPrefix(out, refusal) {
+			return core.Result{Verdict: core.Inconclusive, Reason: fmt.Sprintf("padding function refused or aborted: %v %s", pan, trunc(out, 80))}
+		}
+		if ses.State().CS == before || k > 40 {
+			break
+		}
+	}
+	in["code_segment_before_probes"] = ses.State().CS
+	// the probes
+	probes := [][]ast.Node{
+		{ast.Assign{Name: "zp", Value: ast.FuncLit{Params: []string{"c", "v"}, Body: ast.Block{Stmts: []ast.Node{
+			ast.If{Cond: nm("c"), Then: ast.Return{X: nm("v")}, Else: ast.Assign{Name: "v", Value: ast.Binary{Op: "+", L: nm("v"), R: il(1)}}},
+			ast.Binary{Op: "*", L: nm("v"), R: il(2)}}}}},
+			ast.ArrayLit{Elems: []ast.Node{icall("zp", ast.BoolLit{V: true}, il(4)), icall("zp", ast.BoolLit{V: false}, il(4))}}},
+		{ast.Assign{Name: "zq", Value: ast.FuncLit{Params: []string{"n"}, Body: ast.Block{Stmts: []ast.Node{
+			ast.Assign{Name: "s", Value: il(0)},
+			ast.Assign{Name: "i", Value: il(0)},
+			ast.While{Cond: ast.Binary{Op: "<", L: nm("i"), R: nm("n")}, Body: ast.Block{Stmts: []ast.Node{
+				ast.If{Cond: ast.Binary{Op: "==", L: ast.Binary{Op: "%", L: nm("i"), R: il(2)}, R: il(0)}, Then: ast.Assign{Name: "s", Value: ast.Binary{Op: "+", L: nm("s"), R: nm("i")}}, Else: ast.Assign{Name: "s", Value: ast.Binary{Op: "-", L: nm("s"), R: il(1)}}},
+				ast.Assign{Name: "i", Value: ast.Binary{Op: "+", L: nm("i"), R: il(1)}}}}},
+			ast.For{Vars: []string{"a", "b"}, Iters: []ast.Node{icall("fromto", il(0), nm("n")), icall("elems", ast.StrLit{V: "xyzw"})}, Body: ast.If{Cond: ast.Binary{Op: ">", L: nm("a"), R: il(1)}, Then: ast.Return{X: ast.ArrayLit{Elems: []ast.Node{nm("s"), nm("a"), nm("b")}}}}},
+			nm("s")}}}},
+			ast.ArrayLit{Elems: []ast.Node{icall("zq", il(int64(r.Range(0, 2)))), icall("zq", il(int64(r.Range(3, 7))))}}},
+		{ast.Assign{Name: "zr", Value: ast.FuncLit{Params: []string{"k"}, Body: ast.Block{Stmts: []ast.Node{
+			ast.Assign{Name: "h", Value: ast.FuncLit{Params: []string{"z"}, Body: ast.If{Cond: ast.Binary{Op: "<=", L: nm("z"), R: il(2)}, Then: nm("k"), Else: ast.Binary{Op: "+", L: nm("z"), R: nm("k")}}}},
+			ast.Assign{Name: "g", Value: ast.FuncLit{Body: ast.Block{Stmts: []ast.Node{ast.Yield{X: icall("h", il(2))}, ast.Yield{X: icall("h", il(3))}}}}},
+			ast.Assign{Name: "acc", Value: ast.ArrayLit{}},
+			ast.For{Vars: []string{"e"}, Iters: []ast.Node{icall("g")}, Body: ast.Assign{Name: "acc", Value: ast.Binary{Op: "+", L: nm("acc"), R: ast.ArrayLit{Elems: []ast.Node{nm("e")}}}}},
+			nm("acc")}}}},
+			icall("zr", il(int64(r.Range(1, 50))))},
+		{ast.Assign{Name: "zi", Value: il(int64(r.Range(1, 9)))}, ast.Assign{Name: "zi", Value: ast.Binary{Op: "+", L: nm("zi"), R: il(1)}}, ast.Assign{Name: "zi", Value: ast.Binary{Op: "+", L: il(1), R: nm("zi")}}, nm("zi")},
+	}
+	ref := rs.New()
+	order := make([]int, len(probes))
+	for i := range order {
+		order[i] = i
+	}
+	for i := len(order) - 1; i > 0; i-- {
+		j := r.Intn(i + 1)
+		order[i], order[j] = order[j], order[i]
+	}
+	for _, pi := range order {
+		for _, st := range probes[pi] {
+			w := ref.Exec(st)
+			if w.Ambiguous != "" || w.Budget || w.TooBig || w.Err != "" {
+				return core.Result{Verdict: core.Inconclusive, Reason: "probe outside the agreed region: " + w.Ambiguous + w.Err + " in " + trunc(ast.Print(st, nil), 300)}
+			}
+			src := ast.Print(st, nil)
+			want := w.Out
+			if doOut {
+				want += "> " + val.Display(w.Value) + "\n"
+			}
+			cs := ses.State().CS
+			out, pan := feed(src)
+			if pan != nil {
+				return fail(fmt.Sprintf("statement %q aborted the interpreter with the code segment at %d instructions: %v", trunc(src, 120), cs, pan))
+			}
+			if out != want {
+				return fail(fmt.Sprintf("statement %q printed %q with the code segment at %d instructions; it computes %q", trunc(src, 120), trunc(out, 160), cs, want))
+			}
+			res.Add("probes_beyond_code_offset", 1)
+		}
+	}
+	res.SetMax("max_code_segment", ses.State().CS)
+	res.Tag(fmt.Sprintf("history:longcode-%d", target))
+	res.Hash = core.HashString(fmt.Sprint(target, doOut, order))
+	res.Verdict = core.Held
+	res.Nontrivial = true
+	res.Sample = in
+	return res
 }
